@@ -61,6 +61,14 @@ DRe == {1, 2, UNK, BCAST, MCAST, FILT}
 ReFrames == (DRe \X {"a"}) \cup {<<1, "l">>, <<2, "l">>}
 OnlyH1Moves == last.a = "Move" => last.args.h = 1
 NoSelf == last.a = "Send" => last.args.h # last.args.dst
+\* Round 8: option sets.  Hold-down 11 s = one Gap of 11 (the boundary: at exactly 11 s the controller floods
+\* again), two of 5 do not end it, 5 + 11 and 31 do.
+HD == 11
+OptsHT == {[hold |-> h, transp |-> t, up |-> 0] : h \in {0, HD}, t \in BOOLEAN}
+            \ {[hold |-> 0, transp |-> FALSE, up |-> 0]}
+OptsH  == {[hold |-> HD, transp |-> FALSE, up |-> 0]}
+G5_11 == {5, 11}
+DOpt == {1, 2, UNK, BCAST, MCAST, FILT}
 Five == 5
 BT == {TRUE}
 BF == {FALSE}
